@@ -203,3 +203,40 @@ ADD5 = {
 for _k, (_t, _x) in ADD5.items():
     _tech, _text, _note = CLAIMED[_k]
     CLAIMED[_k] = (_tech + _t, _text + _x, _note)
+
+# ---- round 6
+ADD6 = {
+ "C01": ("; operand-origin rule for the type handed to the selection walker by the fragment resolvers",
+         " Also decides that the selections of an applying fragment are resolved on the object's own type."),
+ "C02": ("; re-statement of C04.GATE for the reflected argument vector",
+         " Also decides that reflection gets the arguments of this evaluation, like the other strategies."),
+ "C03": ("; linear bound proof for variable-length prefixes of package-level tables",
+         " Also decides that a prefix cut from a prepared table cannot exceed it."),
+ "C04": ("; re-statement of C18.NUM for integer literals",
+         " Also decides that integer literals are converted by strconv.ParseInt (no hand-written digit loop beside it)."),
+ "C05": ("; list-element rule extended to list-walking helpers; re-statement of C10.FIELD",
+         " Also decides that helpers of the list resolver coerce every member, and that a leaf is coerced with the definition of this evaluation's container."),
+ "C06": ("; loop-header phi rule for prefixed error lists; control dependence of the per-member formatter in the response former",
+         " Also decides that only errors of the current element are prefixed, and that every member of an error group becomes an entry."),
+ "C07": ("; pooled-buffer typestate (reset dominating every use); re-statement of the list part of C05.LEAF",
+         " Also decides that a pooled output buffer is reset when taken and that list members reach the response only through their coercer."),
+ "C09": ("; sibling agreement of the arms of every Selection-kind switch on looking at directive uses; origin of results returned below the dispatcher",
+         " Also decides that no function treats the directives of the three selection kinds differently, and that results are not served from a table of earlier results."),
+ "C10": ("; constant-origin rule for the location-match flag; re-statement of C09.ONLY",
+         " Also decides that a directive is accepted only after its location matched, and that no selection escapes the per-field checks by being passed over."),
+ "C11": ("; no-alias rule for the container coercers",
+         " Also decides that request literals reach resolvers only as copies."),
+ "C13": ("; constant-origin rule for the location-match flag; re-statement of C16.EXTREFS",
+         " Also decides the location flag's origin and that extension references are resolved (and refused) before the merge."),
+ "C15": ("; re-statement of C18.NUM",
+         " Also decides that every number text the printer emits for a default is read back."),
+ "C16": ("; re-statement of C17.ROOTS",
+         " Also decides that a derived schema is not topped up by later loads."),
+ "C17": ("; every-iteration rule for the loader's insertion loop (added, refused, or the scalar exemption)",
+         " Also decides that no definition is dropped silently."),
+ "C18": ("; equality-guard rule for the boolean words in the value reader; E9 extensions (inductive non-negativity, table prefixes, package tables)",
+         " Also decides that only the writer's exact words are read back as booleans."),
+}
+for _k, (_t, _x) in ADD6.items():
+    _tech, _text, _note = CLAIMED[_k]
+    CLAIMED[_k] = (_tech + _t, _text + _x, _note)
